@@ -167,6 +167,10 @@ struct Case {
     /// subscriber blocks (in flight after the scheduler's step timeout), the producer finishes, the subscriber gets
     /// the whole history; code that releases the buffer there lets the subscriber in.
     probe: bool,
+    /// 0 = the channels of the real size; cap > 0 (a power of two: tokio rounds up): the event channels created for this
+    /// case hold `cap` frames (hook `ripd::verif::set_event_channel_capacity`), so receivers lag after a handful of frames
+    /// and the handlers' refill path runs at every attach position; compared with the model `rfinal LagRefill cap`
+    cap: usize,
 }
 /// actor id of the foreign producer (subscribers are 1..=4)
 const OTHER: usize = 9;
@@ -175,7 +179,7 @@ const LOSS: usize = 7;
 /// actor id of the second producer of the SAME stream (Load::TwoProducers)
 const PROD_B: usize = 8;
 fn case_json(c: &Case) -> serde_json::Value {
-    json!({"kind": c.kind.name(), "load": c.load.to_json(), "subs": c.subs, "sched": c.sched, "others": c.others, "reads": c.reads, "loss": c.loss, "probe": c.probe})
+    json!({"kind": c.kind.name(), "load": c.load.to_json(), "subs": c.subs, "sched": c.sched, "others": c.others, "reads": c.reads, "loss": c.loss, "probe": c.probe, "cap": c.cap})
 }
 fn case_from_json(v: &serde_json::Value) -> Option<Case> {
     let kind = match v.get("kind")?.as_str()? {
@@ -193,6 +197,7 @@ fn case_from_json(v: &serde_json::Value) -> Option<Case> {
         reads: v.get("reads").and_then(|x| x.as_u64()).unwrap_or(0) as usize,
         loss: v.get("loss").and_then(|x| x.as_u64()).unwrap_or(0) as usize,
         probe: v.get("probe").and_then(|x| x.as_bool()).unwrap_or(false),
+        cap: v.get("cap").and_then(|x| x.as_u64()).unwrap_or(0) as usize,
     })
 }
 
@@ -294,6 +299,8 @@ struct Ctl {
     probe_locks: bool,
     /// Case::probe
     probe_buffer: bool,
+    /// Case::cap > 0
+    refill_reads: bool,
     /// continuity seq mutex: who is between `cont.locked` and the return that follows `cont.advanced` / `cont.setnext`
     holder: Option<usize>,
     releasing: Option<usize>,
@@ -432,6 +439,17 @@ impl Ctl {
                 }
             }
         };
+        // small channels: a read may have to refill from the history, i.e. needs the buffer lock (try_lock, asked again
+        // until it answers): while the producer is parked inside its emit the read could not complete, so the producer
+        // leaves its critical section first
+        let choice = if self.refill_reads && choice != 0 && self.guard && en.iter().any(|(a, p)| *a == choice && *p == "c06.read") && en.iter().any(|(a, _)| *a == 0) {
+            if self.pos > 0 && self.pos <= self.prefix.len() && self.prefix[self.pos - 1] == choice {
+                self.pos -= 1; // the read stays next in line
+            }
+            0
+        } else {
+            choice
+        };
         if en.iter().any(|(a, p)| *a == choice && *p == "c06.read") {
             self.events.push(Ev::Drain(choice));
         }
@@ -548,13 +566,16 @@ impl Env {
     fn key_of(c: &Case) -> String {
         // cases with a foreign producer get a fresh store each (uses limit below): the main thread is then short, so a
         // frame of another thread (seq 0, 1) that leaks through the handler is not hidden by the `seq > last` filter
-        format!("{:?}/{:?}/{}/{}", c.kind, c.load, c.others > 0, c.loss > 0)
+        format!("{:?}/{:?}/{}/{}/{}", c.kind, c.load, c.others > 0, c.loss > 0, c.cap)
     }
     fn data(&self) -> PathBuf {
         self.scratch.path().join("data")
     }
 }
 fn env_for<'a>(slot: &'a mut Option<Env>, c: &Case) -> &'a mut Env {
+    // the capacity of every event channel created from here on (session: POST /sessions of the case; task: POST /tasks;
+    // thread: the store's channel, created with the router); 0 = the compiled-in EVENT_CHANNEL_CAPACITY
+    ripd::verif::set_event_channel_capacity(c.cap);
     let stale = match slot {
         Some(e) => e.key != Env::key_of(c) || e.uses >= ENV_MAX_USES || c.others > 0 || c.loss > 0 || matches!(c.load, Load::TwoProducers(_)),
         None => true,
@@ -799,7 +820,7 @@ fn run_case(env: &mut Env, c: &Case) -> Outcome {
     }
     drop(tx);
 
-    let ctl = std::cell::RefCell::new(Ctl { kind: c.kind, prefix: c.sched.clone(), pos: 0, prev: None, guard: false, multi: matches!(c.load, Load::TwoProducers(_)), probe_locks: c.load == Load::MessagesTwo, probe_buffer: c.probe, holder: None, releasing: None, log_holder: None, events: vec![], p_trace: vec![] });
+    let ctl = std::cell::RefCell::new(Ctl { kind: c.kind, prefix: c.sched.clone(), pos: 0, prev: None, guard: false, multi: matches!(c.load, Load::TwoProducers(_)), probe_locks: c.load == Load::MessagesTwo, probe_buffer: c.probe, refill_reads: c.cap > 0, holder: None, releasing: None, log_holder: None, events: vec![], p_trace: vec![] });
     let sid_probe = stream_id.clone();
     let probe = driver.clone();
     let sub_point = c.kind.sub_point();
@@ -1152,13 +1173,14 @@ fn coq_case(c: &Case, o: &Outcome) -> String {
         enc_list(&mut expect, seqs);
     }
     format!(
-        "{{| c_kind := {}; c_porder := {}; c_n := {}; c_subs := {}; c_sched := {}; c_expect := {} |}}",
+        "{{| c_kind := {}; c_porder := {}; c_n := {}; c_subs := {}; c_sched := {}; c_expect := {}; c_lagcap := {} |}}",
         c.kind.code(),
         if pub_first { "PubThenRec" } else { "RecThenPub" },
         coq_nat(o.truth.len() as u64),
         coq_nat(c.subs as u64),
         evs,
-        coq_list_n(&expect)
+        coq_list_n(&expect),
+        coq_nat(c.cap as u64)
     )
 }
 
@@ -1204,7 +1226,8 @@ fn corpus(repo_root: &Path) -> Vec<Case> {
 
 /// the producer's point trace for a load (dry run without subscribers)
 fn producer_points(kind: Kind, load: &Load) -> Vec<&'static str> {
-    let c = Case { kind, load: load.clone(), subs: 0, sched: vec![], others: 0, reads: 0, loss: 0, probe: false };
+    let c = Case { kind, load: load.clone(), subs: 0, sched: vec![], others: 0, reads: 0, loss: 0, probe: false, cap: 0 };
+    ripd::verif::set_event_channel_capacity(0);
     let mut env = Env::new(&c);
     run_case(&mut env, &c).producer_trace
 }
@@ -1252,12 +1275,12 @@ fn main() {
     // ---- hook-free: attach around the end of a long run on a multi-thread runtime
     // (20 000 lines: more frames than the channel holds - the subscribers attached before / during the run lag and refill)
     for k in if thorough { vec![6000u64, 3000, 1500, 20000] } else { vec![3000u64] } {
-        cases.push(Case { kind: Kind::Session, load: Load::EndRace(k), subs: 5, sched: vec![], others: 0, reads: 0, loss: 0, probe: false });
+        cases.push(Case { kind: Kind::Session, load: Load::EndRace(k), subs: 5, sched: vec![], others: 0, reads: 0, loss: 0, probe: false, cap: 0 });
     }
     // ---- a task stream longer than its channel (2 x 8500 frames through the real TaskEmitter): the subscriber attaches
     // first and reads last, so its receiver lags and the task handler has to refill from the history
     if thorough {
-        cases.push(Case { kind: Kind::Task, load: Load::TwoProducers(8500), subs: 1, sched: vec![1, 1], others: 0, reads: 0, loss: 0, probe: false });
+        cases.push(Case { kind: Kind::Task, load: Load::TwoProducers(8500), subs: 1, sched: vec![1, 1], others: 0, reads: 0, loss: 0, probe: false, cap: 0 });
     }
     // ---- a thread subscriber lags because of OTHER threads' frames (the continuity channel is shared): it attaches, the
     // thread gets its message (3 live frames), then 8300 branch calls put 16 600 foreign frames on the channel, then it
@@ -1265,7 +1288,7 @@ fn main() {
     if thorough {
         let mut s = vec![1, 1];
         s.extend(vec![0; 160]);
-        cases.push(Case { kind: Kind::Thread, load: Load::Messages(1), subs: 1, sched: s, others: 8300, reads: 0, loss: 0, probe: false });
+        cases.push(Case { kind: Kind::Thread, load: Load::Messages(1), subs: 1, sched: s, others: 8300, reads: 0, loss: 0, probe: false, cap: 0 });
     }
     // ---- two producers on one task stream (stdout pump / stderr pump): one emit = 9 points
     // (before_emit, seq_chosen, recorded, sent, log.before_lock, log.locked, log.body_written, log.nl_written, log.flushed)
@@ -1281,7 +1304,7 @@ fn main() {
                 let mut s = vec![0; *a_];
                 s.extend(vec![PROD_B; *b_]);
                 s.extend([1, 1]);
-                cases.push(Case { kind, load: load.clone(), subs: 1, sched: s, others: 0, reads: 0, loss: 0, probe: false });
+                cases.push(Case { kind, load: load.clone(), subs: 1, sched: s, others: 0, reads: 0, loss: 0, probe: false, cap: 0 });
                 // the subscriber is attached before both and reads as it goes
                 let mut s = vec![1, 1];
                 s.extend(vec![0; *a_]);
@@ -1289,7 +1312,7 @@ fn main() {
                 s.push(1);
                 s.extend(vec![0; 9]);
                 s.push(1);
-                cases.push(Case { kind, load: load.clone(), subs: 1, sched: s, others: 0, reads: 2, loss: 0, probe: false });
+                cases.push(Case { kind, load: load.clone(), subs: 1, sched: s, others: 0, reads: 2, loss: 0, probe: false, cap: 0 });
             }
         }
         let n_rand = if thorough { 300 } else { 24 };
@@ -1304,7 +1327,7 @@ fn main() {
                     _ => r.range(1, subs as u64) as usize,
                 });
             }
-            cases.push(Case { kind, load: Load::TwoProducers(r.range(1, 3)), subs, sched: s, others: 0, reads: r.range(0, 2) as usize, loss: 0, probe: false });
+            cases.push(Case { kind, load: Load::TwoProducers(r.range(1, 3)), subs, sched: s, others: 0, reads: r.range(0, 2) as usize, loss: 0, probe: false, cap: 0 });
         }
     }
 
@@ -1336,7 +1359,7 @@ fn main() {
                 s.push(1);
                 s.extend(vec![0; d]);
                 s.push(1);
-                cases.push(Case { kind: *kind, load: load.clone(), subs: 1, sched: s, others: 0, reads: 0, loss: 0, probe: false });
+                cases.push(Case { kind: *kind, load: load.clone(), subs: 1, sched: s, others: 0, reads: 0, loss: 0, probe: false, cap: 0 });
             }
         }
         // several concurrent subscribers, random interleavings
@@ -1349,7 +1372,7 @@ fn main() {
                 s.push(if r.chance(3, 5) { 0 } else { r.range(1, subs as u64) as usize });
             }
             let reads = r.range(0, 3) as usize;
-            cases.push(Case { kind: *kind, load: load.clone(), subs, sched: s, others: 0, reads, loss: 0, probe: false });
+            cases.push(Case { kind: *kind, load: load.clone(), subs, sched: s, others: 0, reads, loss: 0, probe: false, cap: 0 });
         }
         // a client that keeps reading while the stream is produced: attach at position a, then read after every
         // `stride` producer steps
@@ -1365,7 +1388,57 @@ fn main() {
                 s.extend(vec![0; stride]);
                 s.push(1);
             }
-            cases.push(Case { kind: *kind, load: load.clone(), subs: 1, sched: s, others: 0, reads, loss: 0, probe: false });
+            cases.push(Case { kind: *kind, load: load.clone(), subs: 1, sched: s, others: 0, reads, loss: 0, probe: false, cap: 0 });
+        }
+        // SMALL CHANNELS: the event channels hold 1, 2 or 4 frames, so a subscriber that does not read between two frames
+        // LAGS and the handler must refill from the history: attach at position a, snapshot d positions later, then read
+        // after every `stride` producer steps (or not at all before the end)
+        {
+            let caps: &[usize] = if thorough { &[1, 2, 4] } else { &[1, 2] };
+            let mut n_small = 0;
+            for (ic, cap) in caps.iter().enumerate() {
+                for (ia, a_) in pos.iter().enumerate() {
+                    if !thorough && (ia + ic) % 3 != 0 {
+                        continue;
+                    }
+                    let d = if ia + 1 < pos.len() && (ia + ic) % 2 == 0 { pos[ia + 1] - a_ } else { 0 };
+                    let stride = [0usize, 3, 7, 1][(ia + ic) % 4];
+                    let mut s = vec![0; *a_];
+                    s.push(1);
+                    s.extend(vec![0; d]);
+                    s.push(1);
+                    let mut reads = 0;
+                    if stride > 0 {
+                        reads = if thorough { 8 } else { 5 };
+                        for _ in 0..reads {
+                            s.extend(vec![0; stride]);
+                            s.push(1);
+                        }
+                    }
+                    let others = if *kind == Kind::Thread && (ia + ic) % 2 == 1 { 1 } else { 0 };
+                    if others > 0 {
+                        // foreign frames fill the small channel as well
+                        let at = s.len().min(*a_ + 2);
+                        for _ in 0..40 {
+                            s.insert(at, OTHER);
+                        }
+                    }
+                    cases.push(Case { kind: *kind, load: load.clone(), subs: 1, sched: s, others, reads, loss: 0, probe: false, cap: *cap });
+                    n_small += 1;
+                }
+                // several subscribers, random interleavings, random reads
+                for _ in 0..(if thorough { 20 } else { 3 }) {
+                    let subs = r.range(2, 3) as usize;
+                    let len = r.range(4, (t as u64 + 10).max(5)) as usize;
+                    let mut s = vec![];
+                    for _ in 0..len {
+                        s.push(if r.chance(3, 5) { 0 } else { r.range(1, subs as u64) as usize });
+                    }
+                    cases.push(Case { kind: *kind, load: load.clone(), subs, sched: s, others: 0, reads: r.range(0, 3) as usize, loss: 0, probe: false, cap: *cap });
+                    n_small += 1;
+                }
+            }
+            res.notes.push(format!("{} {}: {} small-channel cases (capacity {:?})", kind.name(), load.label(), n_small, caps));
         }
         // the END of the run: run_session / finalize_snapshot write the snapshot file from the history buffer after the last
         // frame (points snap.created / snap.written / snap.flushed inside rip_log::write_snapshot).  A subscriber that
@@ -1407,7 +1480,7 @@ fn main() {
             res.notes.push(format!("{} {}: {} end-of-run attach cases (inside the snapshot write)", kind.name(), load.label(), ends.len()));
             for s in ends {
                 let subs = s.iter().cloned().max().unwrap_or(1).max(1);
-                cases.push(Case { kind: *kind, load: load.clone(), subs, sched: s, others: 0, reads: 0, loss: 0, probe: true });
+                cases.push(Case { kind: *kind, load: load.clone(), subs, sched: s, others: 0, reads: 0, loss: 0, probe: true, cap: 0 });
             }
         }
         // thread kind: the sidecar cache (what replay_events, the handler's history source, prefers over the log) is LOST
@@ -1424,7 +1497,7 @@ fn main() {
                     s.push(LOSS);
                     s.extend(vec![0; *d]);
                     s.push(1);
-                    cases.push(Case { kind: *kind, load: load.clone(), subs: 1, sched: s, others: 0, reads: 0, loss: 1 + (ia + id) % 2, probe: false });
+                    cases.push(Case { kind: *kind, load: load.clone(), subs: 1, sched: s, others: 0, reads: 0, loss: 1 + (ia + id) % 2, probe: false, cap: 0 });
                     n_loss += 1;
                 }
             }
@@ -1435,7 +1508,7 @@ fn main() {
                 s.push(LOSS);
                 s.extend(vec![0; 30]);
                 s.push(2);
-                cases.push(Case { kind: *kind, load: load.clone(), subs: 2, sched: s, others: 0, reads: 0, loss: 1, probe: false });
+                cases.push(Case { kind: *kind, load: load.clone(), subs: 2, sched: s, others: 0, reads: 0, loss: 1, probe: false, cap: 0 });
                 n_loss += 1;
             }
             res.notes.push(format!("thread {}: {} cache-loss cases", load.label(), n_loss));
@@ -1450,7 +1523,7 @@ fn main() {
                 s.push(1);
                 s.extend(vec![OTHER; 80]);
                 s.push(1);
-                cases.push(Case { kind: *kind, load: load.clone(), subs: 1, sched: s, others: 1, reads: 0, loss: 0, probe: false });
+                cases.push(Case { kind: *kind, load: load.clone(), subs: 1, sched: s, others: 1, reads: 0, loss: 0, probe: false, cap: 0 });
                 // one foreign thread before the attach, one inside the window, then the producer moves on before the snapshot
                 let mut s = vec![OTHER; 30];
                 s.extend(vec![0; *a_]);
@@ -1458,7 +1531,7 @@ fn main() {
                 s.extend(vec![OTHER; 80]);
                 s.extend(vec![0; 5]);
                 s.push(1);
-                cases.push(Case { kind: *kind, load: load.clone(), subs: 1, sched: s, others: 2, reads: 1, loss: 0, probe: false });
+                cases.push(Case { kind: *kind, load: load.clone(), subs: 1, sched: s, others: 2, reads: 1, loss: 0, probe: false, cap: 0 });
             }
             for _ in 0..n_multi {
                 let subs = r.range(1, 3) as usize;
@@ -1471,7 +1544,7 @@ fn main() {
                         _ => r.range(1, subs as u64) as usize,
                     });
                 }
-                cases.push(Case { kind: *kind, load: load.clone(), subs, sched: s, others: r.range(1, 2) as usize, reads: r.range(0, 2) as usize, loss: 0, probe: false });
+                cases.push(Case { kind: *kind, load: load.clone(), subs, sched: s, others: r.range(1, 2) as usize, reads: r.range(0, 2) as usize, loss: 0, probe: false, cap: 0 });
             }
         }
     }
@@ -1484,7 +1557,7 @@ fn main() {
             let mut s = vec![0; a_];
             s.extend(vec![PROD_B; 45]);
             s.extend([1, 1]);
-            cases.push(Case { kind: Kind::Thread, load: Load::MessagesTwo, subs: 1, sched: s, others: 0, reads: 0, loss: 0, probe: false });
+            cases.push(Case { kind: Kind::Thread, load: Load::MessagesTwo, subs: 1, sched: s, others: 0, reads: 0, loss: 0, probe: false, cap: 0 });
         }
     }
 
@@ -1504,6 +1577,7 @@ fn main() {
         }
         let got = if let Load::EndRace(k) = c.load {
             env_slot = None;
+            ripd::verif::set_event_channel_capacity(0);
             std::panic::catch_unwind(std::panic::AssertUnwindSafe(|| run_end_race(c, k)))
         } else {
             let e = env_for(&mut env_slot, c);
@@ -1519,6 +1593,9 @@ fn main() {
         if c.reads > 0 {
             res.bump("reads_while_producing");
         }
+        if c.cap > 0 {
+            res.bump(&format!("small_channel_cap={}", c.cap));
+        }
         let o = match got {
             Err(_) => {
                 Sched::uninstall();
@@ -1531,6 +1608,7 @@ fn main() {
         };
         res.oracle_checks += 1;
         if a.extra.contains_key("debug") {
+            eprintln!("t={:.1}s", t0.elapsed().as_secs_f64());
             eprintln!("case {i} {} {} subs={} sched={:?}\n   events={:?}\n   delivered={:?} marks={:?} truth={:?} in_flight={} deadlock={} ppoints={}", c.kind.name(), c.load.label(), c.subs, c.sched, o.events, o.delivered, o.marks, o.truth, o.in_flight, o.deadlock, o.producer_trace.len());
         }
         res.bump(&format!("frames={}", match o.truth.len() { 0..=3 => "1-3", 4..=6 => "4-6", 7..=12 => "7-12", _ => "13+" }));
@@ -1550,7 +1628,8 @@ fn main() {
             res.bump("attached_inside_run");
             distinct.add(&format!("{:?}|{:?}|{:?}", c.kind, c.load, o.events));
         }
-        if let Some((what, class)) = oracle(c, &o, channel_capacity(&repo_root, c.kind)) {
+        let cap_of = |c: &Case| if c.cap > 0 { c.cap } else { channel_capacity(&repo_root, c.kind) };
+        if let Some((what, class)) = oracle(c, &o, cap_of(c)) {
             // shrink the schedule prefix while the same class keeps failing
             let base = c.clone();
             let cls = class.clone();
@@ -1564,7 +1643,7 @@ fn main() {
                         Sched::uninstall();
                         env_slot = None;
                     }
-                    r.ok().and_then(|o| oracle(&cc, &o, channel_capacity(&repo_root, cc.kind))).map(|f| f.1) == Some(cls.clone())
+                    r.ok().and_then(|o| oracle(&cc, &o, cap_of(&cc))).map(|f| f.1) == Some(cls.clone())
                 })
             } else {
                 c.sched.clone()
